@@ -1,4 +1,5 @@
 """C02 Boolean connectives, ITE, constants: terminal cases + wiring"""
+import substrate
 import edm
 import etaut
 import ector
@@ -97,4 +98,5 @@ def run(ctx):
                 "sat_count, pick_cube*) to the sequential type: the item of the same name with the parameters in order.")
     nd = eeval.check_mt_delegations(ctx, F)
     ctx.floor("E-WRAP.delegate", "forwarding methods of the MT function types", nd, 15)
+    substrate.run(ctx, F, dm=False)
     ctx.not_decided = "the default value of variables missing from eval's arguments, behaviour under memory exhaustion and parallel scheduling"
